@@ -12,9 +12,13 @@ import core  # noqa: E402
 import fam_limits  # noqa: E402
 
 
-def bounded_depth(case):
+def frame_words(case):
     ftype, k = case["frame"]
-    words = {"locals": k, "struct": 8 ** k, "args": k, "temps": k}[ftype]
+    return {"locals": k, "struct": 8 ** k, "args": k, "temps": k}[ftype]
+
+
+def bounded_depth(case):
+    words = frame_words(case)
     return 200 if words <= 64 else (5 if words <= 512 else 2)
 
 
@@ -59,12 +63,16 @@ def main(tier):
         cases = fam_limits.recursion_cases(quick) + fam_limits.heap_cases(quick)
         collectors = ["copy"] if quick else ["copy", None, "sweep"]
         jobs = []
+        boots_skipped = []
         for i, case in enumerate(cases):
             d = os.path.join(scratch, "p%d" % i)
             os.makedirs(d)
             src = os.path.join(d, "p.dora")
             open(src, "w").write(case["src"])
             for be in ("cannon", "boots"):
+                if be == "boots" and case["expect"] == "stack" and frame_words(case) > 4096:
+                    boots_skipped.append(case["name"])   # minutes of compile time per program in the optimizing compiler
+                    continue
                 for gc in (collectors if case["expect"] in ("stack", "oom", "ok") else ["copy"]):
                     jobs.append((i, case, src, be, gc))
 
@@ -85,7 +93,7 @@ def main(tier):
             if r is None:
                 # the optimizing compiler is a Dora program with its own heap: running out of it on a huge function is a
                 # resource limit of the compiler process, reported as such (never a verdict about the program)
-                if be == "boots" and ("out of memory" in err or "stack overflow" in err):
+                if be == "boots" and ("out of memory" in err or "stack overflow" in err or "compile timeout" in err):
                     skipped.append("%s [%s]" % (case["name"], be))
                     continue
                 c.violation("c13:compile-failed:%s" % be, "%s does not compile with %s: %s" % (case["name"], be, err[-300:]),
@@ -119,6 +127,7 @@ def main(tier):
             "programs": len(cases),
             "collectors": [g or "swiper" for g in collectors],
             "skipped_compiler_resource_limit": skipped,
+            "not_compiled_with_boots_frame_over_4096_words": boots_skipped,
         }
         c.assumptions = ["a compile failure of the optimizing generator caused by its own heap limit on a huge generated function is a "
                          "resource limit of the compiler process, listed under skipped_compiler_resource_limit"]
